@@ -197,8 +197,9 @@ def reply_shape(ctx):
                     good.append(True)   # slot holds the serialised constant (Parameter.finish)
                 elif isinstance(x, ast.Call) and call_attr(x) == 'do' and name == '_execute_command':
                     # only reaches the return when cobj.result is falsy: do() returned None
-                    good.append(any(isinstance(a, ast.If) and 'result' in src(a.test) for a in
-                                    [s for s in body_walk(fi.node) if isinstance(s, ast.If)]))
+                    good.append(any(isinstance(a, ast.If) and 'result' in src(a.test) and
+                                    any(isinstance(c, ast.Call) and call_attr(c) == 'export_value' for st in a.body for c in calls_in(st))
+                                    for a in [s for s in body_walk(fi.node) if isinstance(s, ast.If)]))
                 else:
                     good.append(False)
             ctx.check(bool(good) and all(good), f'{fi.qualname}:value in transport representation', r,
